@@ -127,6 +127,12 @@ var noopPrefixes = []string{
 	"(*sync.WaitGroup).", "(*sync.Cond).",
 	"(*time.Timer).", "(*time.Ticker).",
 	"os.Getenv",
+	// ML-KEM public-key unpacking expands the matrix A from the seed with
+	// SHAKE (unsafe, assembly); the expansion does not influence whether a key
+	// is accepted, so it is skipped (the matrix stays zero).
+	"(*github.com/cloudflare/circl/pke/kyber/internal/common.Poly).DeriveUniform",
+	// ... and caches H(pk) with circl's own SHA3 (unsafe): skipped likewise.
+	"(*github.com/cloudflare/circl/internal/sha3.State).",
 }
 
 func (in *Interp) prefixModel(fn *ssa.Function, name string, args []Value) (Value, bool) {
